@@ -51,6 +51,15 @@ CORPUS = [
     "ltsd 8 8 0 0 1 1 0 2 2 0 3 3 0 4 4 0 5 5 0 6 6 0 7 7 1 7",
     # block relation that is a strict linear order 2 < 0 < 1
     "lts 3 3 0 0 1 1 0 2 2 0 0 P 3 1 1 1 2 1 0 R 6 0 0 1 1 2 2 2 0 0 1 2 1",
+    # shrunk triggers of seeded mutations in a scratch copy (parallel edges decremented once; no initial pruning by missing
+    # labels; counters initialised over unrelated blocks; new block not marked for removal; counter zero test off by one)
+    "ltsd 4 5 0 0 1 1 0 2 2 0 3 3 1 3 0 0 1",
+    "lts 2 1 0 0 1 P 2 1 0 1 1 R 3 0 0 0 1 1 1",
+    "lts 3 3 0 0 1 0 0 2 1 0 0 P 2 2 0 1 1 2 R 2 0 0 1 1",
+    "lts 3 2 0 0 1 2 0 2 P 1 3 0 1 2 R 1 0 0",
+    "ltsd 8 3 4 0 5 5 0 6 6 0 7",
+    "lts 3 2 0 0 2 1 0 0 P 2 2 0 1 1 2 R 2 0 0 1 1",
+    "lts 7 5 6 0 0 5 2 6 4 0 3 3 1 0 1 2 4 P 1 7 3 5 6 1 4 2 0 R 1 0 0",
 ]
 
 def cases(rng, tier):
